@@ -488,7 +488,11 @@ pub fn parts<'a>(cli: &'a Cli) -> Option<(Vec<Part<'a>>, &'static str, Vec<&'sta
                 let (exp, obs) = run(c);
                 c12_oracle(c, &exp, &obs)
             }));
-            Some((parts, "part mem: the C12 cases over the in-memory connection: 'the server closes its sending side' is observed exactly (shutdown(Write) recorded), no timing involved", a))
+            parts.push(make_part("mem-long-lived", "CONV/mem", cli.cases(60, 3_000), || gen::c12_long_strategy(mem()), |_| (), |_, c| {
+                let (exp, obs) = run(c);
+                c12_oracle(c, &exp, &obs)
+            }));
+            Some((parts, "part mem: the C12 cases over the in-memory connection: 'the server closes its sending side' is observed exactly (shutdown(Write) recorded), no timing involved; part mem-long-lived: 30-300 requests on one persistent connection (HTTP/1.1, or HTTP/1.0 with keep-alive; with or without a 300-900 byte header each), sent at once, at once with the client waiting for every answer, or one at a time: every one is served, then the half-close is honoured", a))
         }
         "C16" => {
             parts.push(make_part("mem", "CONV/mem", cli.cases(20_000, 1_000_000), || gen::c16_strategy(mem()), |_| (), |_, c| {
